@@ -11,7 +11,8 @@ LIVE = SAFE + ["Proofs/ExecLive.v", "Proofs/ExecMeasure.v", "Proofs/ExecLiveCor.
                "Proofs/StepSafe.v", "Proofs/StepLive.v", "Proofs/StepLiveCor.v"]
 
 TABLE = {
-    "C01": dict(kinds=["block", "step", "dep", "cblock"], oracle=oracles.c01, cone=SAFE, n=(70, 700)),
+    "C01": dict(kinds=["block", "step", "dep", "cblock"], oracle=oracles.c01,
+                cone=SAFE + ["Model/StepExec.v", "Model/DepExec.v", "Proofs/StepSafe.v", "Proofs/DepSafe.v", "Proofs/Fidelity.v"], n=(70, 700)),
     "C02": dict(kinds=["block", "step", "dep", "cblock", "cstep", "ublock"], oracle=oracles.c02, cone=LIVE, n=(70, 700)),
     "C03": dict(kinds=["dep"], oracle=oracles.c03,
                 cone=["Model/Exec.v", "Model/ExecInv.v", "Model/StepExec.v", "Model/DepExec.v", "Proofs/ExecLive.v", "Proofs/DepSafe.v",
@@ -22,11 +23,13 @@ TABLE = {
     "C05": dict(kinds=["block", "step", "dep", "cblock", "cstep", "ublock"], oracle=oracles.c05, cone=LIVE, n=(70, 700)),
     "C06": dict(kinds=["block", "step", "dep", "cblock", "cstep", "fexec", "cblockd"], oracle=oracles.c06,
                 cone=SAFE + ["Model/StepExec.v", "Model/FileExec.v", "Model/FileSpec.v", "Model/CacheExec.v", "Model/CacheSpec.v",
-                             "Proofs/FileSafe.v", "Proofs/FileRefute.v", "Proofs/CacheSafe.v", "Proofs/CacheCancel.v"], n=(70, 700)),
+                             "Proofs/FileSafe.v", "Proofs/FileRefute.v", "Proofs/CacheSafe.v", "Proofs/CacheCancel.v",
+                             "Model/DepExec.v", "Proofs/StepSafe.v", "Proofs/DepSafe.v", "Proofs/Fidelity.v"], n=(70, 700)),
     "C07": dict(kinds=["step", "dep", "block", "cstep"], oracle=oracles.c07,
                 cone=SAFE + ["Model/StepExec.v", "Model/LiveSpec.v", "Proofs/StepSafe.v", "Proofs/StepLive.v", "Proofs/StepLiveCor.v",
                              "Proofs/DictFacts.v", "Proofs/C10Proofs.v"], n=(90, 800)),
-    "C11": dict(kinds=["block", "step", "dep", "cblock", "cstep"], oracle=oracles.c11, cone=SAFE + ["Model/StepExec.v", "Proofs/StepSafe.v"], n=(70, 700)),
+    "C11": dict(kinds=["block", "step", "dep", "cblock", "cstep"], oracle=oracles.c11,
+                cone=SAFE + ["Model/StepExec.v", "Proofs/StepSafe.v", "Proofs/ExecOrder.v"], n=(70, 700)),
     "C12": dict(kinds=["block", "step", "dep", "cblock", "cstep", "ublock"], oracle=oracles.c12, cone=LIVE, n=(70, 700)),
 }
 
